@@ -48,6 +48,7 @@ def main(argv=None):
             else:
                 fj, meta = factsmod.extract(cfg, repo=a.repo)
             P = Program(fj)
+            P.repo = a.repo or factsmod.REPO
             meta["lib_functions"] = len(P.lib_fns())
             ctx.configs.append(meta)
             mod.run(ctx, P)
